@@ -532,15 +532,24 @@ func (db *Database) limitResults(results []SearchResult, limit int) []SearchResu
 // performFuzzySearch conducts fuzzy search on the database
 func (db *Database) performFuzzySearch(query string, options SearchOptions) []SearchResult {
 	// Create search targets combining command and description
-	targets := make([]string, len(db.Commands))
+	// Only commands that pass the platform / pipeline filters are candidates,
+	// exactly as on the lexical path.
+	targets := make([]string, 0, len(db.Commands))
+	targetIndex := make([]int, 0, len(db.Commands))
+	platforms := platformsInForce(options)
 	var builder strings.Builder
 
-	for i, cmd := range db.Commands {
+	for i := range db.Commands {
+		cmd := &db.Commands[i]
+		if !isCommandEligible(cmd, platforms, options) {
+			continue
+		}
 		builder.Reset()
 		builder.WriteString(cmd.Command)
 		builder.WriteByte(' ')
 		builder.WriteString(cmd.Description)
-		targets[i] = builder.String()
+		targets = append(targets, builder.String())
+		targetIndex = append(targetIndex, i)
 	}
 
 	// Perform fuzzy search
@@ -569,7 +578,7 @@ func (db *Database) performFuzzySearch(query string, options SearchOptions) []Se
 		}
 
 		results = append(results, SearchResult{
-			Command: &db.Commands[match.Index],
+			Command: &db.Commands[targetIndex[match.Index]],
 			Score:   normalizedScore,
 		})
 	}
